@@ -327,7 +327,7 @@ fn of4_ack_ahead_of_unsent_fragment_returns() {
 // OF5: TimeSensitive packets through the connection.
 //@h props=C12,C20 tier=quick timeout=900 role=flush-time-sensitive-stale cbmc=--max-field-sensitivity-array-size+512
 //@fn HalfConnection::{send, emit_frames, emit_data_frames, send_buffer_size, is_send_pending}, PacketSender::emit_packet
-//@bound small connection; ONE 1-byte TimeSensitive packet submitted under flush id f (any); the application steps (flush id f+1) before any flush; flush with ample credit at any time
+//@bound small connection; ONE 1-byte TimeSensitive packet submitted under flush id 2^32-1; the application steps (flush id wraps to 0) before any flush; flush with ample credit at any time
 //@assume as of1_two_flushes_reliable
 #[kani::proof]
 #[kani::unwind(4)]
@@ -336,7 +336,7 @@ fn of4_ack_ahead_of_unsent_fragment_returns() {
 fn of5_time_sensitive_not_sent_after_step() {
     let e = any_env();
     let mut hc = small(TXP, 0, TXF, 0, None);
-    let f: u32 = kani::any();
+    let f: u32 = 0xFFFF_FFFF;     // concrete (the comparison of flush ids decides a heap-modifying branch); the step wraps it to 0
     hc.flush_id = f;
     hc.send(Box::new([kani::any()]), 0, SendMode::TimeSensitive);
     let t0 = any_time_from(0);
